@@ -34,53 +34,64 @@ def main():
     thorough = ck.tier == "thorough"
     corrupt = os.environ.get("VERIF_SELFTEST_CORRUPT") == "1"
 
-    # --- MC: the session model -----------------------------------------------------------------
-    # quick: every sink kind with 2 items, the mini universe with 3 items; thorough: the core universe with 3 items
-    # (every sink kind with 3 items is ~10^7 states: beyond the 15 min budget)
-    runs = [("ChoicesFull", 2), ("ChoicesMini", 3)] if not thorough else [("ChoicesFull", 2), ("ChoicesCore", 3)]
-    for choices, n in runs:
-        mc = vlib.tlc("MCDevMode", "mc.cfg", files={"mc.cfg": cfg_text("DevMode_mc.cfg", MaxItems=n, Choices=choices)},
-                      workers=12, timeout=1500, xmx="8g")
-        if not mc.ok:
-            raise vlib.InfraError("DevMode (codehash rule) violates %s: spec inconsistent" % mc.violated)
-        ck.add_tlc(mc, "DevMode_mc %s MaxItems=%d" % (choices, n))
-    for name, rule in (("DevMode_neg_coded.cfg", "HasChanged as coded"), ("DevMode_neg_noexprs.cfg", "HasChanged without expression list")):
-        neg = vlib.tlc("MCDevMode", name, workers=1, timeout=600)
-        if neg.violated != "NoRebuildMeansFaithful":
-            raise vlib.InfraError("negative config %s (%s) was not rejected: the invariant is vacuous" % (name, rule))
-    txt = vlib.tlc("DevModeText", "DevModeText_mc.cfg", workers=1, timeout=600)
-    if not txt.ok:
-        raise vlib.InfraError("DevModeText violates %s" % txt.violated)
-    ck.add_tlc(txt, "DevModeText_mc")
-    for name in ("DevModeText_neg_backslash.cfg", "DevModeText_neg_newline.cfg"):
-        neg = vlib.tlc("DevModeText", name, workers=1, timeout=300)
-        if neg.violated != "TextRoundTrip":
-            raise vlib.InfraError("negative config %s was not rejected" % name)
-    ck.set("negative_configs_rejected", 4)
-    text_cases = txt.tagged("CASE")
-    if len(text_cases) != txt.distinct:
-        raise vlib.InfraError("DevModeText printed %d of %d cases" % (len(text_cases), txt.distinct))
-
-    # --- GEN: emission ---------------------------------------------------------------------------
-    # (universe, items, edits without rebuild): all sink kinds with single edits + edit sequences on a smaller universe
+    # --- MC, negative configs and emission: all TLC runs concurrently, the harness is built meanwhile -----------
+    # quick: every sink kind with 2 items, the mini universe with 3 items, static text around expressions with 4 items;
+    # thorough: the core universe with 3 items (every sink kind with 3 items is ~10^7 states: beyond the 15 min budget)
+    runs = [("ChoicesFull", 2), ("ChoicesMini", 3), ("ChoicesText", 4)] if not thorough else [("ChoicesFull", 2), ("ChoicesCore", 3), ("ChoicesText", 4)]
+    negs = [("MCDevMode", "DevMode_neg_coded.cfg", "NoRebuildMeansFaithful", "HasChanged as coded before 4de87af"),
+            ("MCDevMode", "DevMode_neg_noexprs.cfg", "NoRebuildMeansFaithful", "HasChanged without expression list"),
+            ("MCDevMode", "DevMode_neg_texthash.cfg", "NoRebuildMeansFaithful", "text-file hash over the plain concatenation of the literals"),
+            ("DevModeText", "DevModeText_neg_backslash.cfg", "TextRoundTrip", "backslash not escaped"),
+            ("DevModeText", "DevModeText_neg_newline.cfg", "TextRoundTrip", "newline not escaped")]
+    # emission (universe, items, edits without rebuild): all sink kinds with single edits, edit sequences on a smaller
+    # universe, and static text moved across Go code (needs 4 items)
     if thorough:
-        gens = [("ChoicesFull", 2, 3), ("ChoicesMini", 3, 2)]
+        gens = [("ChoicesFull", 2, 3), ("ChoicesMini", 3, 2), ("ChoicesText", 4, 2)]
     else:
-        gens = [("ChoicesFull", 2, 1), ("ChoicesCore", 2, 2)]
-    edges = []
-    for gen_choices, gen_items, gen_edits in gens:
-        gen = vlib.tlc("MCDevMode", "gen.cfg", files={"gen.cfg": cfg_text("DevMode_gen.cfg", MaxItems=gen_items, Choices=gen_choices, MaxEdits=gen_edits)},
-                       workers=1, timeout=2400, xmx="8g")
-        if gen.violated:
-            raise vlib.InfraError("DevMode emission run violated %s" % gen.violated)
-        es = gen.tagged("EDGE")
-        if not es:
-            raise vlib.InfraError("no transitions emitted")
-        ck.add_tlc(gen, "DevMode_gen (Regenerate transitions, coded rule) %s MaxItems=%d MaxEdits=%d: %d edges" % (gen_choices, gen_items, gen_edits, len(es)))
-        edges += es
-    model_unfaithful = sum(1 for e in edges if not e["coded"] and e["sig"] != "faithful")
-    if model_unfaithful == 0:
-        raise vlib.InfraError("the coded-rule model shows no unfaithful transition: emission is broken")
+        gens = [("ChoicesFull", 2, 1), ("ChoicesCore", 2, 2), ("ChoicesText", 4, 1)]
+    import concurrent.futures as cf
+    with cf.ThreadPoolExecutor(max_workers=16) as ex:
+        fbuild = ex.submit(vlib.go_build, "./c16", "c16")
+        fmc = [ex.submit(vlib.tlc, "MCDevMode", "mc.cfg", files={"mc.cfg": cfg_text("DevMode_mc.cfg", MaxItems=n, Choices=choices)},
+                         workers=12 if thorough else 4, timeout=1500, xmx="8g") for choices, n in runs]
+        fneg = [ex.submit(vlib.tlc, mod, name, workers=1, timeout=600) for mod, name, _, _ in negs]
+        ftxt = ex.submit(vlib.tlc, "DevModeText", "DevModeText_mc.cfg", workers=1, timeout=600)
+        fgen = [ex.submit(vlib.tlc, "MCDevMode", "gen.cfg", files={"gen.cfg": cfg_text("DevMode_gen.cfg", MaxItems=gi, Choices=gc, MaxEdits=ge)},
+                          workers=1, timeout=2400, xmx="8g") for gc, gi, ge in gens]
+        for (choices, n), f in zip(runs, fmc):
+            mc = f.result()
+            if not mc.ok:
+                raise vlib.InfraError("DevMode (code-hash rule, text hash as coded) violates %s: spec inconsistent" % mc.violated)
+            ck.add_tlc(mc, "DevMode_mc %s MaxItems=%d" % (choices, n))
+        for (mod, name, expect, what), f in zip(negs, fneg):
+            neg = f.result()
+            if neg.violated != expect:
+                raise vlib.InfraError("negative config %s (%s) was not rejected: the invariant is vacuous" % (name, what))
+        ck.set("negative_configs_rejected", [n[1] for n in negs])
+        txt = ftxt.result()
+        if not txt.ok:
+            raise vlib.InfraError("DevModeText violates %s" % txt.violated)
+        ck.add_tlc(txt, "DevModeText_mc")
+        text_cases = txt.tagged("CASE")
+        if len(text_cases) != txt.distinct:
+            raise vlib.InfraError("DevModeText printed %d of %d cases" % (len(text_cases), txt.distinct))
+        edges = []
+        for (gen_choices, gen_items, gen_edits), f in zip(gens, fgen):
+            gen = f.result()
+            if gen.violated:
+                raise vlib.InfraError("DevMode emission run violated %s" % gen.violated)
+            es = gen.tagged("EDGE")
+            if not es:
+                raise vlib.InfraError("no transitions emitted")
+            ck.add_tlc(gen, "DevMode_gen (Regenerate transitions, code-hash rule) %s MaxItems=%d MaxEdits=%d: %d edges" % (gen_choices, gen_items, gen_edits, len(es)))
+            edges += es
+        binp = fbuild.result()
+    boundary_edges = sum(1 for e in edges if e["boundary"] and not e["go"])
+    if boundary_edges < 16:
+        raise vlib.InfraError("only %d emitted transitions move static text across Go code" % boundary_edges)
+    quiet_edges = sum(1 for e in edges if not e["go"])
+    if quiet_edges < 500:
+        raise vlib.InfraError("only %d emitted transitions request no rebuild" % quiet_edges)
     # de-duplicate (C, P, S): the same transition is reached in several runs / with different edit counters
     seen, uniq = set(), []
     for e in edges:
@@ -96,13 +107,13 @@ def main():
     vlib.write_ndjson(os.path.join(sc, "texts.ndjson"), text_cases)
     max_cases = 20000 if thorough else 2400
     max_unfaithful = 15000 if thorough else 1200
+    max_boundary = 0 if thorough else 600         # 0 = all
     conf = {"edges": os.path.join(sc, "edges.ndjson"), "texts": os.path.join(sc, "texts.ndjson"),
-            "work": work, "work_rel": work_rel, "seed": ck.seed, "max_cases": max_cases, "max_unfaithful": max_unfaithful, "pkg_size": 400,
+            "work": work, "work_rel": work_rel, "seed": ck.seed, "max_cases": max_cases, "max_unfaithful": max_unfaithful, "max_boundary": max_boundary, "pkg_size": 400,
             "corrupt": corrupt}
     cpath = os.path.join(sc, "c16.json")
     with open(cpath, "w") as fh:
         json.dump(conf, fh)
-    binp = vlib.go_build("./c16", "c16")
     vlib.log("replaying %d distinct transitions (%d emitted)" % (len(uniq), len(edges)))
     p = vlib.run([binp, "run", cpath], check=False, timeout=3000)
     s = vlib.harness_results(ck, p)
@@ -122,20 +133,32 @@ def main():
         raise vlib.InfraError("only %d no-rebuild transitions were compared" % s["no_rebuild_checked"])
     for k in ("edges_emitted", "edges_selected", "selected_pools", "edges_replayed", "templates", "text_cases", "text_cases_rejected_by_parser",
               "dev_equals_normal_checked", "verbatim_checked", "accepted_not_generated", "packages", "build_seconds", "rounds", "no_rebuild_checked", "rebuild_requested",
-              "premise_failed", "generator_drift", "text_file_drift", "real_differs_from_coded_rule",
+              "premise_failed", "generator_drift", "text_file_drift", "text_file_checked_after_edit", "text_file_stale_after_edit",
+              "text_updated_decision_drift", "text_moved_across_go_code_replayed", "real_differs_from_coded_rule",
               "real_differs_from_codehash_rule", "no_rebuild_by_model_signature", "manifest_by_signature",
               "unfaithful_manifest", "unfaithful_not_manifest_in_bytes"):
         ck.set(k, s[k])
-    ck.set("model_unfaithful_transitions_coded_rule", model_unfaithful)
+    ck.set("emitted_transitions_moving_text_across_go_code", boundary_edges)
+    if s["fails"] == 0 and s["text_moved_across_go_code_replayed"] < min(boundary_edges, 16):
+        raise vlib.InfraError("only %d transitions that move text across Go code were replayed" % s["text_moved_across_go_code_replayed"])
+    if s["fails"] == 0 and s["text_file_checked_after_edit"] < s["no_rebuild_checked"]:
+        raise vlib.InfraError("the text file was not checked after every edit")
+    st = s["stream"]
+    if st["checked"] == 0:
+        ck.notes.append("continuous-rendering check inconclusive in this run (%d attempts: the renderings did not straddle the edit)" % st["inconclusive"])
+    ck.set("continuous_rendering_across_text_edit", st)
     ck.set("real_haschanged_rule", "coded" if s["real_differs_from_coded_rule"] == 0 else
            ("codehash" if s["real_differs_from_codehash_rule"] == 0 else "other"))
     ck.set("traces_validated_against_impl", s["edges_replayed"] + s["dev_equals_normal_checked"])
     ck.set("bounds", {"MaxItems_mc": [r[1] for r in runs], "gen": [list(g) for g in gens], "MaxEdits_mc": 3,
                       "text": {"MaxLits": 2, "MaxLen": 2, "classes": 7}})
     ck.set("rule", "every Regenerate transition (compiled template, previous template, saved template) of the session model over "
-                   "the emission runs %s (universe, items, edits without rebuild); transitions the coded-rule model calls unfaithful (%s) plus a seeded sample of %d others; "
-                   "every distinct template rendered normally and in development mode with its own text file; every DevModeText literal list"
-                   % (gens, "all" if not max_unfaithful else "seeded sample of %d" % max_unfaithful, max_cases))
+                   "the emission runs %s (universe, items, edits without rebuild); edits that move static text across Go code (%s), a seeded sample of %d others; "
+                   "consecutive versions go through ONE real FSEventHandler (its remembered text-file hash and previous output matter); after every edit the text file must "
+                   "hold the literals of that generation; every distinct template rendered normally and in development mode with its own text file; every DevModeText "
+                   "literal list; continuous rendering (every 10 ms) across a text-only edit must show the new text within 500 ms"
+                   % (gens, "all" if not max_boundary else "seeded sample of %d" % max_boundary, max_cases))
+    ck.assume("the joined hash of the literals is injective on literal lists (escaped literals contain no raw newline)")
     ck.assume("generator options (version, file name) are constant within a watch session")
     ck.assume("rendered bytes only: source positions inside templ.Error messages of a running program are stale by design")
     ck.assume("templates are flat item sequences, one expression per element; expressions are type-correct in the positions they are moved to")
